@@ -625,8 +625,7 @@ Fixpoint mon_svc (pre : list entry) (ops : list op) (obl : list (obs * view)) : 
   end.
 
 (* clause 2 over time: an acknowledged registration is honoured until its lease ends.  After an answered
-   UpdateServiceGCSafePoint with TTL > 0 the storage view shows the entry (id, expiry, safe point) that was recorded: until
-   that expiry, unless the service is removed or re-registered, no other request may be told a minimum above that safe
+   UpdateServiceGCSafePoint with TTL > 0 whose registration was recorded, until now + TTL, unless the service is removed or re-registered, no other request may be told a minimum above that safe
    point.  (Promises are dropped at every op that can legitimately remove entries: REST delete, raw writes, the
    fault/interleaving ops.) *)
 Fixpoint mon_promise (pr : list entry) (ops : list op) (obl : list (obs * view)) : option string :=
@@ -638,8 +637,15 @@ Fixpoint mon_promise (pr : list entry) (ops : list op) (obl : list (obs * view))
           if existsb (fun p => (now <=? e_exp p)%Z && (e_sp p <? msp)%Z) others
           then Some "C15:acknowledged-registration-not-honoured"
           else
+            (* recorded = the view shows an entry of this id with the requested safe point; what was promised is the
+               lease the ANSWER acknowledged: now + ttl (saturating), whatever expiry was actually stored *)
             let pr1 := if (0 <? ttl)%Z
-                       then match find_text (text_of i) (v_svcs v) with Some e => e :: others | None => others end
+                       then match find_text (text_of i) (v_svcs v) with
+                            | Some e => if (e_sp e =? sp)%Z
+                                        then Entry (text_of i) (if (maxI64 - now <=? ttl)%Z then maxI64 else (now + ttl)%Z) sp :: others
+                                        else others
+                            | None => others
+                            end
                        else others in
             mon_promise pr1 r br
       | OSvc _ _ _ _ _ _, _ | OUpd _ _, _ | OBegin _ _, _ | OFinish _ _, _ | OWake _, _ | OGet, _ => mon_promise pr r br
